@@ -297,6 +297,7 @@ let () =
         | "c15" :: r -> c15 r
         | "asm" :: r -> do_asm r
         | "parse" :: r -> do_parse r
+        | "parsew" :: r -> do_parse r
         | _ -> "BADCASE" in
       print_string out; print_char '\n'
     done
